@@ -16,13 +16,35 @@ BM = 'model::beatmap::Beatmap'
 PASS_THROUGH = {'deref_mut', 'as_mut_slice', 'as_mut', 'borrow_mut', 'index_mut', 'get_mut'}
 
 
+def root_aliases(fn, root_param=1):
+    """locals holding the same `&mut Beatmap` as the parameter (copies, moves, re-borrows) — after inlining a helper its map parameter is one"""
+    roots = {root_param}
+    grew = True
+    while grew:
+        grew = False
+        for bi, si, s in fn.assigns():
+            if 'proj' in s['p'] or s['p']['l'] in roots:
+                continue
+            rv = s['rv']
+            src = None
+            if rv['k'] == 'use' and rv['op'].get('k') in ('copy', 'move'):
+                src = rv['op']['p']
+            elif rv['k'] == 'ref':
+                src = rv['p']
+            if src is not None and src['l'] in roots and all(e == '*' for e in src.get('proj', [])):
+                roots.add(s['p']['l'])
+                grew = True
+    return roots
+
+
 def vec_mut_uses(fn, field, root_param=1):
     """calls that receive a mutable borrow of (*param).field (directly or through deref_mut)"""
     out = []
     al = set()
+    roots = root_aliases(fn, root_param)
     for bi, si, s in fn.assigns():
         rv = s['rv']
-        if rv['k'] == 'ref' and rv['bk'] == 'mut' and rv['p']['l'] == root_param and 'proj' not in s['p']:
+        if rv['k'] == 'ref' and rv['bk'] == 'mut' and rv['p']['l'] in roots and 'proj' not in s['p']:
             names = [e.get('f') for e in rv['p'].get('proj', []) if isinstance(e, dict) and 'f' in e]
             if names == [field]:
                 al.add(s['p']['l'])
@@ -61,9 +83,10 @@ def vec_mut_uses(fn, field, root_param=1):
 
 def elem_writes(fn, field, root_param=1):
     out = []
+    roots = root_aliases(fn, root_param)
     for bi, si, s in fn.assigns():
         p = s['p']
-        if p['l'] == root_param and 'proj' in p:
+        if p['l'] in roots and 'proj' in p:
             names = [e.get('f') for e in p['proj'] if isinstance(e, dict) and 'f' in e]
             if names and names[0] == field:
                 whole = len([e for e in p['proj'] if e != '*']) == 1
@@ -153,7 +176,10 @@ def run(ctx):
                     'catch convert writes exactly map.mode and map.is_convert and calls nothing: objects untouched', f.where(),
                     bad='catch::convert::convert writes %s and makes %d call(s): a catch convert must leave the objects untouched' % (sorted(written), ncalls))
     # ---- R2
+    import inline
     f = F.fn('taiko::convert::convert')
+    if f is not None:
+        f = inline.inlined(F, f)            # private helpers of the converter (splice/remove step, final sort) are read through
     if f is None:
         ctx.violation('C19-R2', 'anchor-missing:taiko::convert::convert', 'not found')
     else:
@@ -238,6 +264,8 @@ def run(ctx):
     n3 = 0
     for path in ('taiko::convert::convert', 'mania::convert::convert', 'mania::convert::apply_hold_off_to_beatmap', 'mania::convert::apply_invert_to_beatmap'):
         f = F.fn(path)
+        if f is not None:
+            f = inline.inlined(F, f)
         if f is None:
             ctx.violation('C19-R3', 'anchor-missing:' + path, 'not found')
             continue
